@@ -748,3 +748,36 @@ func TestC08TailRace(t *testing.T) {
 		t.FailNow()
 	}
 }
+
+// A free-running schedule cannot be replayed; what can be repeated is the attempt. Replaying a "stress" file runs
+// the job kind that produced it again for a few seconds and reports a violation only if one shows again.
+type stressReplay struct {
+	Duet     []string     `json:"duet"`
+	Keep     bool         `json:"keep"`
+	TailRace bool         `json:"tail_race"`
+	Round    *stressRound `json:"round"`
+}
+
+func init() {
+	registerReplay("stress", func(c *stressReplay, st *Stats) {
+		switch {
+		case len(c.Duet) == 2:
+			for i := int64(0); i < 4; i++ {
+				if fails := runDuet(11+i, c.Duet[0], c.Duet[1], c.Keep, 1500); len(fails) > 0 {
+					cfail("history", "duet %s || %s again: %v", c.Duet[0], c.Duet[1], fails)
+				}
+			}
+		case c.Round != nil:
+			r := *c.Round
+			for i := 0; i < 3; i++ {
+				res := runStressRound(r)
+				if len(res.Failures) > 0 {
+					cfail("history", "stress round again: %v", res.Failures)
+				}
+				r.Seed++
+			}
+		default:
+			fmt.Println("[replay] a tail-race or unspecified stress record: run `verif.py check C08` to repeat the attempt")
+		}
+	})
+}
